@@ -227,11 +227,15 @@ class Composite(Datum):
         deep_merge(merge_steps, steps)
         deep_merge(merge_flow, flow)
         deep_merge(merge_state, state)
-        merge_processes = assoc_in({}, path, merge_processes)
-        merge_topology = assoc_in({}, path, merge_topology)
-        merge_steps = assoc_in({}, path, merge_steps)
-        merge_flow = assoc_in({}, path, merge_flow)
-        merge_state = assoc_in({}, path, merge_state)
+        # copy the nested dictionaries so that later merges into self
+        # do not change the composites and dictionaries merged in here
+        merge_processes = assoc_in(
+            {}, path, deep_copy_internal(merge_processes))
+        merge_topology = assoc_in(
+            {}, path, deep_copy_internal(merge_topology))
+        merge_steps = assoc_in({}, path, deep_copy_internal(merge_steps))
+        merge_flow = assoc_in({}, path, deep_copy_internal(merge_flow))
+        merge_state = assoc_in({}, path, deep_copy_internal(merge_state))
 
         # merge with instance processes and topology
         deep_merge(self.processes, merge_processes)
